@@ -8,7 +8,7 @@ from ..world import make  # noqa: F401
 
 LEVEL = 'model_checking'
 RULE = ('main calls wait_until_idle() before / between / after dispatches while an external actor streams top-level events (its last wait stallable), handlers pause, dispatch nested '
-        'children (fire-and-forget / awaited, own or other bus); fault prefixes: raising handler, handler timeout (0.5 s, also while awaiting a child), rejected dispatches (burst past '
+        'children (fire-and-forget / awaited, own or other bus); fault prefixes: raising handler (also a handler ending in CancelledError although nobody cancels the bus), handler timeout (0.5 s, also while awaiting a child), rejected dispatches (burst past '
         'the queue capacity inside a handler), eviction (max_history_size 1-2), recursion-guard trip (self-recursion depth 3). The run loop 0.1 s poll is a timer target, so the idle flag '
         'is set/cleared on either side of each dispatch. all schedules <= L deviations; both bus orders. non-trivial = the call began while the bus had work or work arrived during the '
         'call; distinct = distinct recorder traces')
@@ -24,6 +24,7 @@ def families(tier):
         'pause': ([('pause',)], {}), 'ret': ([('ret', 1)], {}), 'raise': ([('pause',), ('raise', 'ValueError')], {}),
         'c_ff': ([('disp', 'A', 'C', 'ff')], {}), 'c_aw': ([('disp', 'A', 'C', 'await')], {}), 'c_ff_B': ([('disp', 'B', 'C', 'ff'), ('pause',)], {}),
         'c_aw_B': ([('disp', 'B', 'C', 'await')], {}), 'timeout': ([('pause',), ('pause',)], {'timeout': 0.5}), 'timeout_aw': ([('disp', 'A', 'C', 'await')], {'timeout': 0.5}),
+        'raise_cancelled': ([('pause',), ('raise', 'CancelledError')], {}), 'raise_cancelled_now': ([('raise', 'CancelledError')], {}),  # (nobody cancels the bus: what the handler awaited was cancelled)
         'recurse': None, 'reject': ([('burst', 'A', 'Y', 53), ('pause',)], {}), 'evict': ([('disp', 'A', 'C', 'ff'), ('disp', 'A', 'C2', 'ff'), ('disp', 'A', 'C3', 'ff'), ('pause',)], {}),
     }
     for ps, when, actor, tmo in itertools.product(pshapes, ['after', 'paused', 'before', 'twice'], ['none', 'x', 'x_stall_x'], (None, 1.0)):
@@ -53,7 +54,7 @@ def families(tier):
             main.append(('idle', 'B'))
         actors = {'none': [], 'x': [[('disp', 'A', 'X1', 'ff')]], 'x_stall_x': [[('disp', 'A', 'X1', 'ff'), ('pause', 'stall'), ('disp', 'A', 'X2', 'ff')]]}[actor]
         for order in ([names] if len(names) == 1 else [names, names[::-1]]):
-            out.append(dict(prop='C15', family='c15.idle.' + ('fault' if ps in ('raise', 'timeout', 'timeout_aw', 'recurse', 'reject', 'evict') else 'plain'),
+            out.append(dict(prop='C15', family='c15.idle.' + ('fault' if ps in ('raise', 'raise_cancelled', 'raise_cancelled_now', 'timeout', 'timeout_aw', 'recurse', 'reject', 'evict') else 'plain'),
                             id=f'c15/{ps}-{when}-{actor}-t{tmo}-o{"".join(order)}', cfg=cfg, params=dict(ps=ps, when=when, tmo=tmo),
                             scn=dict(buses={b: dict(hist=hist) for b in names}, order=order, handlers=hs, main=main, actors=actors, forwards=[], settle=2.0,
                                      no_watch=(ps == 'reject'))))
